@@ -322,6 +322,7 @@ def run_vector(vec, emb, pool, eid, recv=None, arg=None):
     pj = Proj(emb, pool)
     # one call in four starts from tiers that were reached through a history (see mk_tier_primed)
     build = mk_tier_primed if eid % 4 == 1 and vec["op"] != "construct" else mk_tier
+    fresh = recv is None and arg is None
     if recv is None:
         recv = build(vec["pre"], emb, pool)
     if arg is None and vec["arg"]["kind"] != "none":
@@ -338,10 +339,27 @@ def run_vector(vec, emb, pool, eid, recv=None, arg=None):
         pe = isinstance(ex, errors.PraatioException)
         ret = None
     rettier = ret if isinstance(ret, (textgrid.IntervalTier, textgrid.PointTier)) else None
+    retproj = pj.tier(rettier)
+    postproj = pj.tier(recv)
+    argpostproj = pj.tier(arg) if arg is not None else NONE
+    # does the returned tier share anything with the receiver or the argument?  identity, and - for freshly built operands,
+    # one call in four - behaviour: an entry deleted from (or added to) the result must not show in the operands
+    alias = rettier is not None and (rettier is recv or rettier is arg)
+    if rettier is not None and not alias and fresh and eid % 4 == 2:
+        try:
+            with contextlib.redirect_stdout(io.StringIO()):
+                if len(rettier.entries):
+                    rettier.deleteEntry(rettier.entries[0])
+                else:
+                    far = emb.g(retproj["hi"] + 7)
+                    rettier.insertEntry((far, emb.g(retproj["hi"] + 8), "zz") if retproj["kind"] == "I" else (far, "zz"), "error", "silence")
+            alias = pj.tier(recv) != postproj or (arg is not None and pj.tier(arg) != argpostproj)
+        except Exception:  # noqa - the probe itself is not under test
+            pass
     ev = {
         "id": eid, "fam": "tier", "op": vec["op"], "args": vec["args"], "pre": pre, "arg": argpre,
-        "st": st, "pe": pe, "ret": pj.tier(rettier), "post": pj.tier(recv),
-        "argpost": pj.tier(arg) if arg is not None else NONE,
+        "st": st, "pe": pe, "ret": retproj, "post": postproj,
+        "argpost": argpostproj, "alias": bool(alias),
         "out": buf.getvalue() != "", "arith": True, "exactfp": emb.dyadic,
         "rawwf": raw_wf(rettier) and raw_wf(recv),
         "validok": validate_agrees(rettier) and validate_agrees(recv),
